@@ -13,6 +13,8 @@ import QlibcModel.ListTbl.History
 import QlibcModel.ListTbl.UrlRt
 import QlibcModel.ListTbl.Args
 import QlibcModel.HashTbl.DecLemmas
+import QlibcModel.Shapes.Listtbl
+import QlibcModel.Shapes.Encode
 
 namespace Qlibc.Props.C08
 open Qlibc Qlibc.ListTbl
